@@ -223,3 +223,168 @@ fn k02_unescape_2() {
 fn k02_unescape_3() {
     unescape_n!(3)
 }
+
+//@ prop: C02
+//@ family: K02-unescape
+//@ tier: quick
+//@ functions: parsers::slice::grammar::unescape_string_literal
+//@ inst: &str of 3 bytes: a backslash followed by one arbitrary 2-byte UTF-8 scalar (U+0080..U+07FF)
+//@ inputs: the scalar's two bytes (all valid 2-byte encodings)
+//@ oracle: the backslash is removed and the non-ASCII scalar is kept verbatim, byte for byte
+//@ bound: unwind 5
+//@ timeout: 900
+#[kani::proof]
+#[kani::unwind(5)]
+fn k02_unescape_non_ascii() {
+    let b1: u8 = kani::any();
+    let b2: u8 = kani::any();
+    kani::assume(b1 >= 0xC2 && b1 <= 0xDF && b2 >= 0x80 && b2 <= 0xBF);
+    kani::cover!(b1 == 0xC3 && b2 == 0xA9, "escape followed by U+00E9 reachable");
+    let bytes = [b'\\', b1, b2];
+    let s = unsafe { core::str::from_utf8_unchecked(&bytes) };
+    let got = unescape_string_literal(s);
+    let gb = got.as_bytes();
+    assert!(gb.len() == 2 && gb[0] == b1 && gb[1] == b2, "the escaped non-ASCII character is kept verbatim");
+    core::mem::forget(got);
+}
+
+//@ prop: C02
+//@ family: K02-enumerator
+//@ tier: quick
+//@ functions: parsers::slice::grammar::construct_enum (reset of the carried enumerator value), construct_enumerator
+//@ inst: real Parser over an empty Ast; an enum without enumerators is completed while the parser carries a value from the enum before it, then the first enumerator of the next enum is constructed
+//@ inputs: the carried value (any i128), is_compact / is_unchecked flags
+//@ oracle: "previous value + 1 starting from 0" per enum: the first implicit enumerator after a completed enum has value 0 whatever the previous enum ended with
+//@ stubs: std::hash::RandomState::new, std::fmt::format
+//@ bound: unwind 4; the completed enum has no enumerators, no underlying type, no doc comment
+#[kani::proof]
+#[kani::unwind(4)]
+#[kani::stub(std::hash::RandomState::new, stub_random_state)]
+#[kani::stub(std::fmt::format, stub_format)]
+fn k02_enumerator_restart_per_enum() {
+    let mut ast = Ast::verif_empty();
+    let mut diagnostics = Diagnostics::new();
+    let mut parser = Parser::new("f", &mut ast, &mut diagnostics);
+    let carried: i128 = kani::any();
+    parser.previous_enumerator_value = Some(carried);
+    let e = construct_enum(
+        &mut parser,
+        (Vec::new(), Vec::new()),
+        kani::any(),
+        kani::any(),
+        Identifier { value: String::new(), span: sp() },
+        None,
+        Vec::new(),
+        sp(),
+    );
+    let next = construct_enumerator(&mut parser, (Vec::new(), Vec::new()), Identifier { value: String::new(), span: sp() }, None, None, sp());
+    kani::cover!(carried == 127, "previous enum ended with 127 reachable");
+    kani::cover!(carried == -1, "previous enum ended with -1 reachable");
+    assert!(next.borrow().value() == 0, "implicit numbering restarts from 0 in every enum");
+    core::mem::forget(next);
+    core::mem::forget(e);
+    drop(parser);
+    core::mem::forget(diagnostics);
+    core::mem::forget(ast);
+}
+
+// ---- integer literals -------------------------------------------------------------------------------------------
+fn pick(sel: u8) -> u8 {
+    // alphabet that spans the mechanism: prefixes (0, x, b), digits of each base (1, 9, a, f), the separator
+    match sel {
+        0 => b'0',
+        1 => b'1',
+        2 => b'9',
+        3 => b'a',
+        4 => b'b',
+        5 => b'f',
+        6 => b'x',
+        _ => b'_',
+    }
+}
+fn digit(c: u8) -> Option<u32> {
+    match c {
+        b'0' => Some(0),
+        b'1' => Some(1),
+        b'9' => Some(9),
+        b'a' => Some(10),
+        b'b' => Some(11),
+        b'f' => Some(15),
+        _ => None,
+    }
+}
+/// reference: drop underscores; "0b" / "0x" prefix selects base 2 / 16 (checked in that order, once), else base 10; every
+/// remaining character must be a digit of the base and there must be at least one. Returns None for an invalid literal.
+fn ref_integer(t: &[u8; 4]) -> Option<i128> {
+    let mut d = [0u8; 4];
+    let mut n = 0;
+    let mut i = 0;
+    while i < 4 {
+        if t[i] != b'_' {
+            d[n] = t[i];
+            n += 1;
+        }
+        i += 1;
+    }
+    let (start, base) = if n >= 2 && d[0] == b'0' && d[1] == b'b' {
+        (2, 2)
+    } else if n >= 2 && d[0] == b'0' && d[1] == b'x' {
+        (2, 16)
+    } else {
+        (0, 10)
+    };
+    if start >= n {
+        return None;
+    }
+    let mut v: i128 = 0;
+    let mut i = 0;
+    while i < 4 {
+        if i >= start && i < n {
+            match digit(d[i]) {
+                Some(x) if x < base => v = v * (base as i128) + x as i128,
+                _ => return None,
+            }
+        }
+        i += 1;
+    }
+    Some(v)
+}
+
+//@ prop: C02
+//@ family: K02-int
+//@ tier: quick
+//@ functions: parsers::slice::grammar::try_parse_integer (str::replace, starts_with, i128::from_str_radix)
+//@ inst: real Parser over an empty Ast; literal of exactly 4 characters
+//@ inputs: every 4-character string over the alphabet {0, 1, 9, a, b, f, x, _} (4096 strings: decimal, 0x../0b.. prefixes, hex digits that look like prefixes, underscores anywhere)
+//@ oracle: reference parser written from the language rule (underscores dropped, one base prefix, digits of that base): a valid literal yields its value and no diagnostic; an invalid one yields exactly one error diagnostic (and the dummy value 0); no panic
+//@ stubs: std::hash::RandomState::new, std::fmt::format
+//@ bound: unwind 7; 4 characters (values < 2^16: overflow of i128 is outside this harness)
+//@ timeout: 1500
+#[kani::proof]
+#[kani::unwind(7)]
+#[kani::stub(std::hash::RandomState::new, stub_random_state)]
+#[kani::stub(std::fmt::format, stub_format)]
+fn k02_integer_literal_4() {
+    let sel: [u8; 4] = kani::any();
+    kani::assume(sel[0] < 8 && sel[1] < 8 && sel[2] < 8 && sel[3] < 8);
+    let t = [pick(sel[0]), pick(sel[1]), pick(sel[2]), pick(sel[3])];
+    let s = unsafe { core::str::from_utf8_unchecked(&t) };
+    let mut ast = Ast::verif_empty();
+    let mut diagnostics = Diagnostics::new();
+    let mut parser = Parser::new("f", &mut ast, &mut diagnostics);
+    let out = try_parse_integer(&mut parser, s, sp());
+    let want = ref_integer(&t);
+    kani::cover!(t[0] == b'0' && t[1] == b'x' && t[2] == b'0' && t[3] == b'b', "hex literal whose digits look like a binary prefix (0x0b) reachable");
+    kani::cover!(t[0] == b'0' && t[1] == b'_' && t[2] == b'x' && t[3] == b'f', "underscore inside the prefix (0_xf) reachable");
+    kani::cover!(want.is_none() && t[0] == b'0' && t[1] == b'b' && t[2] == b'9', "binary literal with a decimal digit reachable");
+    kani::cover!(want == Some(1199), "decimal 1199 reachable");
+    match want {
+        Some(v) => assert!(out.value == v, "a valid literal yields the value written, in its base, underscores ignored"),
+        None => assert!(out.value == 0, "an invalid literal yields the dummy value"),
+    }
+    core::mem::forget(out);
+    drop(parser);
+    assert!(diagnostics.has_errors() == want.is_none(), "a literal is diagnosed exactly when it is not a valid integer literal");
+    core::mem::forget(diagnostics);
+    core::mem::forget(ast);
+}
